@@ -475,8 +475,8 @@ func (t *Collection) VisitItemsRandom(
 		return true
 	}
 	si, err := t.MinItem(false)
-	if err != nil {
-		return err
+	if err != nil || si == nil {
+		return err // An empty collection has nothing to visit.
 	}
 	err = t.VisitItemsAscendEx(si.Key, false, v)
 	if err != nil {
@@ -540,8 +540,8 @@ func (t *Collection) VisitItemsAscendBlockEx(
 		return true
 	}
 	si, err := t.MinItem(false)
-	if err != nil {
-		return err
+	if err != nil || si == nil {
+		return err // An empty collection has nothing to visit.
 	}
 	err = t.VisitItemsAscendEx(si.Key, false, v)
 	if err != nil {
@@ -607,8 +607,8 @@ func (t *Collection) Len() (l int64, err error) {
 		return true
 	}
 	si, err := t.MinItem(false)
-	if err != nil {
-		return
+	if err != nil || si == nil {
+		return // An empty collection has length 0.
 	}
 	err = t.VisitItemsAscendEx(si.Key, false, visitor)
 	return
